@@ -3,7 +3,7 @@ import Pog.Model.GenCode
 /-
   JSON glue for M-gencode (C04 / C05 / C06 behavioural part).
 
-    buildRequest [op, args]            → {"ok": request} | {"err": "moduleError|typeError|nameError|valueError|headerTypeError"}
+    buildRequest [op, args]            → {"ok": request} | {"err": "moduleError|typeError|nameError|valueError|headerTypeError|cookieTypeError"}
     handle       [transport, op, reply] → outcome            transport = "bundled" | "passthrough"
     parsePath    [str]                 → [seg]
     sigOf        [op]                  → [[ident, required]]
@@ -18,7 +18,7 @@ import Pog.Model.GenCode
   shape  = {"k": "model"|"listModel", "n": str} | {"k": "int"|"string"|"binary"|"noSchema"}
   args   = [[identifier, value]]       value = {"t": "none"} | {"t": "str"|"other", "v": token}
   reply  = {"status": nat, "ctype": str|null}
-  request = {"method", "path": [{"lit": s} | {"val": value}], "query": null|[[k, value]], "headers": null|[[k, value]],
+  request = {"method", "path": [{"lit": s} | {"val": value}], "query": null|[[k, value]], "headers": null|[[k, value]], "cookies": null|[[k, value]],
              "body": {"kw": "none"|"json"|"files"|"data", "v": value}}
   outcome = {"k": "moduleError"} | {"k": "nameError"} | {"k": "returned", "ret": ret}
           | {"k": "raised", "cls": "HTTPError"|"ClientError"|"ServerError"|"alias", "code": nat|null, "name": str,
@@ -142,11 +142,12 @@ private def jErr : CallErr → String
   | .nameError => "nameError"
   | .valueError => "valueError"
   | .headerTypeError => "headerTypeError"
+  | .cookieTypeError => "cookieTypeError"
 
 private def jRequest : Except CallErr Request → Json
   | .error e => Json.mkObj [("err", Json.str (jErr e))]
   | .ok r => Json.mkObj [("ok", Json.mkObj [("method", jstr r.method), ("path", jlist jPiece r.path),
-      ("query", jopt jEntries r.query), ("headers", jopt jEntries r.headers), ("body", jBody r.body)])]
+      ("query", jopt jEntries r.query), ("headers", jopt jEntries r.headers), ("cookies", jopt jEntries r.cookies), ("body", jBody r.body)])]
 
 private def jTy : PyTy → Json
   | .bytes => Json.mkObj [("k", Json.str "bytes")]
